@@ -689,3 +689,139 @@ def run_hits(case):
         return out
     finally:
         b.close()
+
+
+# ------------------------------------------------------------------ the poll thread under a gated Event (C12)
+class GateEvent:
+    """stands in for `RepeatedTimer.event` (a threading.Event): `wait(timeout)` parks the poll thread until the
+    schedule lets the wait time out (returns False) or `set()` is called (returns True) — no wall clock anywhere"""
+
+    def __init__(self):
+        self.flag = False
+        self.arrived = threading.Semaphore(0)
+        self.go = threading.Semaphore(0)
+        self.timeouts = []
+
+    def wait(self, timeout=None):
+        self.timeouts.append(timeout)
+        if self.flag:
+            return True
+        self.arrived.release()
+        if not self.go.acquire(timeout=WAIT):
+            raise TimeoutError('gate event not released')
+        return self.flag
+
+    def set(self):
+        self.flag = True
+        self.go.release()
+
+    def is_set(self):
+        return self.flag
+
+    def clear(self):
+        self.flag = False
+
+
+BASE_HOW = {'interrupt': lambda: Interrupt('stop'), 'keyboard': KeyboardInterrupt, 'systemexit': lambda: SystemExit(3)}
+
+
+def run_thread(case):
+    """the REAL RepeatedTimer thread (made exactly as LongPoll.start makes it, minus the inline first poll) running the
+    REAL LongPoll.poll; its Event is a GateEvent, so every pass of the loop is one `tick` of the schedule.  `flush` runs
+    every waiting apply task and then the real TaskHandler.flush(); `stop` is the real LongPoll.shutdown()."""
+    from deep.utils import RepeatedTimer
+    b = SvcBench()
+    out = {'trace': [], 'degraded': list(b.degraded)}
+    deaths = {}
+    old_hook = threading.excepthook
+    threading.excepthook = lambda a: deaths.__setitem__(a.thread.name if a.thread else '?', a.exc_type)
+    ge = GateEvent()
+    timer = None
+    try:
+        interval = case.get('interval', 0.05)
+        timer = RepeatedTimer('Tracepoint Long Poll', interval, b.deep.poll.poll)
+        if not hasattr(timer, 'event') or not hasattr(timer, 'thread'):
+            out['skipped'] = 'RepeatedTimer has no event/thread attribute to gate'
+            return out
+        timer.event = ge
+        b.deep.poll.timer = timer
+        thread = timer.thread
+        stopped = [False]
+
+        def settle():
+            """wait until the thread is parked in the gate again, or has ended"""
+            import time as _t
+            deadline = _t.time() + WAIT
+            while not ge.arrived.acquire(timeout=0.005):
+                if not thread.is_alive():
+                    return False
+                if _t.time() > deadline:
+                    raise core.Infra('poll thread neither came back to its wait nor ended in %s s' % WAIT)
+            return True
+        timer.start()
+        parked = settle()
+        for ev in case['evs']:
+            r = {}
+            k = ev['ev']
+            if k == 'tick':
+                if parked and not stopped[0]:
+                    op = ev['op']
+                    if op['op'] == 'poll':
+                        b.channel.next = ('resp', make_response(op))
+                    elif op.get('how') in ('garbage', 'bad_update'):
+                        b.channel.next = ('resp', garbage_response(op.get('how')))
+                    elif op.get('base'):
+                        b.channel.next = ('raise', BASE_HOW[op.get('how', 'interrupt')]())
+                    else:
+                        b.channel.next = ('raise', poll_failure(op.get('how')))
+                    ge.go.release()
+                    parked = settle()
+            elif k == 'flush':
+                n = 0
+                while b.exec.waiting() and n < 100:
+                    b.do({'op': 'applyTask', 'i': 0})
+                    n += 1
+                try:
+                    b.deep.task_handler.flush()
+                except BaseException as e:  # noqa: B902
+                    r['raised'] = f'{type(e).__name__}: {e}'
+            elif k == 'stop':
+                try:
+                    b.deep.poll.shutdown()
+                except BaseException as e:  # noqa: B902
+                    r['raised'] = f'{type(e).__name__}: {e}'
+                if ge.flag:
+                    stopped[0] = True
+                    thread.join(WAIT)
+                    if thread.is_alive():
+                        raise core.Infra('poll thread did not end after its event was set')
+                # (an implementation whose shutdown() does not set the event leaves the thread parked: it goes on)
+                parked = parked and thread.is_alive()
+            else:
+                raise core.Infra('unknown event ' + k)
+            alive = thread.is_alive()
+            died = None
+            if not alive and not stopped[0] or (not alive and thread.name in deaths):
+                et = deaths.get(thread.name)
+                died = 'exc' if (et is not None and issubclass(et, Exception)) else 'base'
+            r.update({'alive': alive, 'issued': b.channel.calls, 'sent': list(b.channel.hashes), 'died': died,
+                      'hash': b._safe(lambda: b.tps.current_hash, 'current_hash'),
+                      'polled': b._safe(lambda: flatten(b.tps.current_config), 'current_config', []),
+                      'queued': len(b.exec.waiting()),
+                      'handler_open': getattr(b.deep.task_handler, '_open', None)})
+            out['trace'].append(r)
+        out['timeouts'] = [t for t in ge.timeouts]
+        out['interval'] = float(interval)
+        out['degraded'] = list(b.degraded)
+        return out
+    except core.Infra:
+        raise
+    except BaseException as e:  # noqa: B902
+        out['bench_error'] = f'{type(e).__name__}: {e}'
+        return out
+    finally:
+        ge.set()
+        if timer is not None and getattr(timer, 'thread', None) is not None and timer.thread.is_alive():
+            timer.thread.join(2)
+        threading.excepthook = old_hook
+        b.close()
